@@ -42,6 +42,28 @@ func (r *resolver) ClientIP(fox.Context) (*net.IPAddr, error) {
 
 var resolvers = []*resolver{{"G", "1.1.1.1", false}, {"R1", "2.2.2.2", false}, {"R2", "3.3.3.3", false}, {"F", "", true}}
 
+// zeroRes is a stateless resolver: its value is the zero value of its type (like clientip.RemoteAddr{}), and it is a
+// perfectly valid, non-nil resolver. It has index len(resolvers).
+type zeroRes struct{}
+
+func (zeroRes) ClientIP(fox.Context) (*net.IPAddr, error) {
+	return &net.IPAddr{IP: net.ParseIP("4.4.4.4")}, nil
+}
+
+func resolverAt(i int) fox.ClientIPResolver {
+	if i == len(resolvers) {
+		return zeroRes{}
+	}
+	return resolvers[i]
+}
+
+func resName(i int) string {
+	if i == len(resolvers) {
+		return "Z"
+	}
+	return resolvers[i].name
+}
+
 type opt struct {
 	Kind string `json:"kind"` // ignore redirect resolver annot
 	On   bool   `json:"on,omitempty"`
@@ -58,7 +80,7 @@ func (o opt) String() string {
 		if o.Res < 0 {
 			return "resolver(nil)"
 		}
-		return "resolver(" + resolvers[o.Res].name + ")"
+		return "resolver(" + resName(o.Res) + ")"
 	}
 	if o.Val < 0 {
 		return fmt.Sprintf("annot(k%d=nil)", o.Key)
@@ -111,7 +133,7 @@ func globalOpt(o opt) fox.GlobalOption {
 		if o.Res < 0 {
 			return fox.WithClientIPResolver(nil)
 		}
-		return fox.WithClientIPResolver(resolvers[o.Res])
+		return fox.WithClientIPResolver(resolverAt(o.Res))
 	}
 }
 
@@ -131,7 +153,7 @@ func routeOpt(o opt) fox.RouteOption {
 		if o.Res < 0 {
 			return fox.WithClientIPResolver(nil)
 		}
-		return fox.WithClientIPResolver(resolvers[o.Res])
+		return fox.WithClientIPResolver(resolverAt(o.Res))
 	}
 }
 
@@ -142,7 +164,7 @@ type caseT struct {
 	Path    int    `json:"creation_path"`
 }
 
-var patterns = []string{"/a", "/a/{b}", "/a/{b}/*{c}", "h.com/x/{y}", "{s}.h.com/x", "/u/id:{i}/k*{r}/end", "/t/"}
+var patterns = []string{"/a", "/a/{b}", "/a/{b}/*{c}", "h.com/x/{y}", "{s}.h.com/x", "/u/id:{i}/k*{r}/end", "/t/", "Up.H.com/x/{y}", "{Sub}.h.com/Mixed"}
 var paths = []string{"Handle", "Update", "NewRoute+HandleRoute", "NewRoute+UpdateRoute", "Txn.Handle", "Txn.Update", "Txn.HandleRoute"}
 
 func genOpts(r *rand.Rand, n int, global bool) []opt {
@@ -155,7 +177,7 @@ func genOpts(r *rand.Rand, n int, global bool) []opt {
 		case k < 5:
 			out = append(out, opt{Kind: "redirect", On: r.IntN(3) > 0})
 		case k < 7 || global:
-			res := r.IntN(len(resolvers)+1) - 1
+			res := r.IntN(len(resolvers)+2) - 1
 			if global && res < 0 && haveRes {
 				// a nil global resolver after a non-nil one is read differently by the doc comment and the code: not generated
 				res = 0
@@ -464,7 +486,7 @@ func check(run *kit.Run, c caseT) {
 			problems = append(problems, fmt.Sprintf("ignore=%t redirect=%t, expected ignore=%t redirect=%t", rte.IgnoreTrailingSlashEnabled(), rte.RedirectTrailingSlashEnabled(), want.ignore, want.redirect))
 		}
 		gotRes := rte.ClientIPResolver()
-		if (want.res < 0) != (gotRes == nil) || (want.res >= 0 && gotRes != fox.ClientIPResolver(resolvers[want.res])) {
+		if (want.res < 0) != (gotRes == nil) || (want.res >= 0 && gotRes != resolverAt(want.res)) {
 			problems = append(problems, fmt.Sprintf("ClientIPResolver()=%v, expected resolver index %d", gotRes, want.res))
 		}
 		for k := 0; k < 4; k++ {
@@ -485,7 +507,7 @@ func check(run *kit.Run, c caseT) {
 		if i := strings.IndexByte(c.Pattern, '/'); i > 0 {
 			host, path = c.Pattern[:i], c.Pattern[i:]
 		}
-		host = strings.NewReplacer("{s}", "v").Replace(host)
+		host = strings.NewReplacer("{s}", "v", "{Sub}", "v").Replace(host)
 		path = strings.NewReplacer("{b}", "v", "*{c}", "v/w", "{y}", "v", "{i}", "v", "*{r}", "v/w").Replace(path)
 		serve := func(method, host, path string) {
 			f.ServeHTTP(&nullW{http.Header{}}, &http.Request{Method: method, Host: host, URL: &url.URL{Path: path}, Header: http.Header{}, RemoteAddr: "192.0.2.9:1", Proto: "HTTP/1.1", ProtoMajor: 1, ProtoMinor: 1})
@@ -494,6 +516,8 @@ func check(run *kit.Run, c caseT) {
 			switch {
 			case i < 0:
 				return "none"
+			case i == len(resolvers):
+				return "4.4.4.4"
 			case resolvers[i].fail:
 				return "fail"
 			}
